@@ -11,7 +11,7 @@ Proof. induction l as [|s l IH]; [reflexivity|]. cbn [map str_of_val all_some]. 
 
 Section Top.
   Variable pe : str -> option Conv.evr.
-  Variable ex : str -> str.
+  Variable ex : str -> option str.
 
   Theorem rt_choice opt mw s : wf_alts mw -> In s (anames mw) -> roundtrip pe ex (TyChoice false) opt mw (VStr s).
   Proof.
